@@ -137,3 +137,17 @@ package ice
 //@   pure
 //@   ensures host-rules-replace-by-default-and-an-unset-type-means-host: (candidateType == CandidateTypeUnspecified || candidateType == CandidateTypeHost) ==> result == AddressRewriteReplace
 //@   ensures other-types-append-by-default: candidateType != CandidateTypeUnspecified && candidateType != CandidateTypeHost ==> result == AddressRewriteAppend
+
+// The family under which a literal is filed is the family of the address it denotes (net.IP's own notion:
+// To4() != nil, so "::ffff:a.b.c.d" is IPv4), for external addresses, Local pins and lookup keys alike.
+//@ func validateIPString
+//@   props C19
+//@   ensures the-family-is-that-of-the-address-handed-back: result2 == nil ==> result1 == ipIs4(result0.base, result0.off, len(result0))
+
+// A rule without external addresses is intentional: it still takes part in the lookup (replace drops the
+// candidate, append leaves it alone), so it shadows less specific catch-alls like any other rule.
+//@ func maybeMarkEmptyMapping
+//@   props C19
+//@   requires ruleMapping != nil
+//@   ensures an-empty-unpinned-rule-is-a-catch-all-of-every-family-it-allows: !added && !hasLocalAddr ==> (ruleMapping.allowIPv4 ==> ruleMapping.ipv4Mapping.valid && ruleMapping.ipv4Mapping.catchAllSet) && (ruleMapping.allowIPv6 ==> ruleMapping.ipv6Mapping.valid && ruleMapping.ipv6Mapping.catchAllSet)
+//@   ensures an-empty-rule-pinned-to-a-local-address-is-registered-for-that-address: !added && hasLocalAddr && ite(localIsIPv4, ruleMapping.allowIPv4, ruleMapping.allowIPv6) ==> rwValid(ruleMapping, localIsIPv4)
